@@ -8,7 +8,8 @@ META = {
                  "exactly what tests cannot enumerate; the rule covers all of them because it forbids the dependence itself.",
         "design_ref": "DESIGN.md §3 R-HASH/R-STATIC/R-AMBIENT, §4 C17",
         "note": "Trusted: third-party crates are deterministic; ordered std containers iterate as a function of their contents; audit "
-                "rows (audit/hash_sites.toml) for the four unique-match lookups and one diagnostic-only loop, each additionally "
+                "rows (audit/hash_sites.toml) for the four unique-match lookups (identified by function or by the collection they search, so a "
+                "rename or a rewrite as find/find_map keeps the row) and one diagnostic-only loop, each additionally "
                 "checked to accumulate nothing. A Vec collected from a hash collection counts as sorted only if the comparator / key "
                 "closure compares the whole element or the map key (a non-identifying key leaves ties in hash order).",
         "technique": "static analysis: MIR call-site enumeration + intra-procedural dataflow (iterator sink classification), "
@@ -22,9 +23,13 @@ META["C18"] = {
              "and each must be discharged by an audit row whose class is admissible for its zone; grammar actions are additionally "
              "scanned textually. A fuzzer samples byte strings; this enumerates the code that could panic.",
     "design_ref": "DESIGN.md §3 R-PANIC/R-GACT, §4 C18",
-    "note": "Trusted: lalrpop runtime + generated tables, std; LOOKUP rows (well-scopedness after checking). Termination: R-DESCENT decides "
-            "that every recursion cycle of the pipeline is a structural descent (or an audited renaming), so recursion depth is bounded "
-            "by the program; loops and stack size are not decided. Known finding: the RISC-V backend's print_i64 is an unconditional panic.",
+    "note": "Trusted: lalrpop runtime + generated tables, std; LOOKUP rows (well-scopedness after checking). An audited site is identified "
+            "by (crate, message) or by its positional obligation on a sequence, pooled per crate: moving a site into a helper is silent, one "
+            "site more than the audit holds is reported (a new indexing operation whose safety needs an arithmetic argument is reported until a "
+            "row states that argument: the limit of this technique, DESIGN A.6.1). Termination: R-DESCENT decides "
+            "that every recursion cycle of the pipeline is a structural descent (helpers summarised; variable-for-variable renamings "
+            "recognised by their re-checked signature), so recursion depth is bounded by the program; R-LOOP accepts iterator-driven, popped "
+            "and constant-step counting loops; stack size is not decided. Known finding: the RISC-V backend's print_i64 is an unconditional panic.",
     "technique": "static analysis: whole-program call graph over MIR + panic-site inventory against an audited table; grammar action scan; "
                  "SCC decomposition with per-call-site provenance (structural descent)",
 }
